@@ -3555,6 +3555,23 @@ class Evaluator:
             r_ = self.apply_builtin("filterfalse", args, kwargs, state, func, line)
             if not (len(r_) == 1 and r_[0][1][0] == "call" and r_[0][1][1] == "filterfalse"):
                 return r_
+        if tail == "combinations" and len(args) == 2 and not kwargs and args[1][0] == "const" and isinstance(args[1][1], int) and not isinstance(args[1][1], bool):
+            items = self._literal_items(args[0])
+            if items is not None and len(items) <= 5 and 0 <= args[1][1] <= 5:
+                import itertools as _it
+                return [(state, ("listlit", tuple(("tuplelit", tuple(c_)) for c_ in _it.combinations(items, args[1][1]))))]
+        if tail == "from_iterable" and len(args) == 1 and not kwargs:
+            outer = self._literal_items(args[0])
+            if outer is not None and all(self._literal_items(x_) is not None for x_ in outer):
+                flat_ = []
+                for x_ in outer:
+                    flat_.extend(self._literal_items(x_))
+                return [(state, ("listlit", tuple(flat_)))]
+        if tail == "chain" and args and not kwargs and all(self._literal_items(x_) is not None for x_ in args):
+            flat_ = []
+            for x_ in args:
+                flat_.extend(self._literal_items(x_))
+            return [(state, ("listlit", tuple(flat_)))]
         if tail == "takewhile" and len(args) == 2:
             # the prefix of the sequence before the first element that fails the predicate = a loop that appends while the predicate
             # holds and breaks at the first failure
